@@ -16,6 +16,7 @@ struct Ctx<W: Write> {
     idx: u64,
     shard: (u64, u64),
     only_module: Option<String>,
+    lines: String,
 }
 
 impl<W: Write> Ctx<W> {
@@ -58,7 +59,12 @@ impl<W: Write> Ctx<W> {
             join_hex(pows)
         );
         for v in vals {
-            writeln!(self.out, "conv {} {} {} {} {}", head, v.hex(), new(v).hex(), get(v).hex(), get(new(v)).hex()).unwrap();
+            if self.lines != "rnd" {
+                writeln!(self.out, "conv {} {} {} {} {}", head, v.hex(), new(v).hex(), get(v).hex(), get(new(v)).hex()).unwrap();
+            }
+            if self.lines == "conv" {
+                continue;
+            }
             if let Some(rnd) = rnd {
                 let r = rnd(v);
                 writeln!(self.out, "rnd {} {} {}", head, v.hex(), join_hex(&r).replace(':', " ")).unwrap();
@@ -222,6 +228,7 @@ fn main() {
         idx: 0,
         shard: shard(),
         only_module: std::env::var("VERIF_ONLY_MODULE").ok(),
+        lines: std::env::var("VERIF_LINES").unwrap_or_else(|_| "all".to_string()),
     };
     let which = std::env::args().nth(1).unwrap_or_else(|| "all".to_string());
     if which == "all" || which == "si" {
